@@ -83,4 +83,10 @@ func init() {
 		Rule:        "one case = (a) the same operation planned by three fresh engines under three seeded map-iteration orders of the instrumented packages: identical subgraph requests; (b) a history of 3-8 requests from 1-3 concurrent clients over a pool of operations (renamed-variable and different-value variants) on one shared engine with a tape-chosen option set {multi-fetch, DAG scheduling, minification, de-duplication off, plan cache of size 1-2}: every response equals the same request alone on a fresh default engine. Non-trivial = history of >=3 requests over >=2 pool entries. Distinct = distinct hash of the context-switch sequence.",
 		Assumptions: append([]string{"map-order nondeterminism is only controlled inside the instrumented packages (plan, postprocess, resolve, graphql_datasource, httpclient, execution/engine); other packages keep Go's random order, which varies per run anyway"}, fedAssume...), Components: fedComponents,
 	}
+
+	props["C10"] = &propCfg{
+		World: "fed10", QuickRuns: 16000, ThorRuns: 800000, QuickSecs: 200, ThorSecs: 1800, Level: "exploration", MinNontriv: 50,
+		Rule:        "one case = one generated (federation, operation with up to 4 @defer on inline fragments and spreads: nested, sibling, in lists, labels, if literal/variable) executed through the real engine under a seeded completion order of the deferred fetch groups; frames (bytes between flushes) are checked by a stream automaton (valid JSON per frame, initial frame first, ids announced before use, completed exactly once, hasNext false on the last frame only, Complete() once, termination) and the incremental payloads merged at path+subPath must reconstruct the data of the same operation without @defer on the same engine and of the reference monolith; 25% of runs add faults on fetches and assert stream shape, termination and that delivered data is a nulling of the fault-free data. Non-trivial = at least two frames. Distinct = distinct hash of the context-switch sequence.",
+		Assumptions: append([]string{"@defer(if: $var) is generated with the variable true; the twin replaces it by @include(if: $var)"}, fedAssume...), Components: fedComponents,
+	}
 }
